@@ -614,6 +614,17 @@ def run(ctx):
             g = ("cmp", ops.pick(["<=", ">="]), ("fn", k[0], list(k[1:])), c)
             if all(repr(g) != repr(x) for x in goal_num):
                 goal_num.append(g)
+        # round 15: goals that compare two fluents, and their mirror image (same comparator, operands swapped) - two
+        # different goals built from the same leaves; the union holds both
+        if len(fl_keys) >= 2 and ops.draw(3) == 0:
+            k1 = ops.pick(fl_keys)
+            k2 = ops.pick([k for k in fl_keys if k != k1])
+            cmp_ = ops.pick(["<=", ">="])
+            g1 = ("cmp", cmp_, ("fn", k1[0], list(k1[1:])), ("fn", k2[0], list(k2[1:])))
+            goal_num.append(g1)
+            if ops.draw(2) == 0:
+                goal_num.append(("cmp", cmp_, g1[3], g1[2]))
+            ctx.probes["fluent_vs_fluent_goals"] += 1
     share = cfg.chance(1, 3) and len(goal_num) > 0 and nfiles > 1
     if share:
         ctx.profile = "shared-numeric-goal"
